@@ -227,11 +227,8 @@ def acceptance(f, L, name, noinline=None):
     b = f.need(name)
     # loop-free private predicates that only this validator uses (a requirement moved into a function of its own) are
     # read as part of it
-    try:
-        from .names import names as role_names
-        own = role_names(f).exclusive_helpers(name)
-    except Exception:
-        own = set()
+    from .common import read_as_part_of
+    own = read_as_part_of(f, name)
 
     def inl(n):
         r = noinline(n) if noinline is not None else None
